@@ -1,10 +1,11 @@
 """C12 - Paths resolve under their relativity root; home directories are write-protected.
 
 Every case is a small test case made of symbol definitions (`def path`, chains via `-rel SYM`, `@[SYM]@/x`,
-`@[SYM]@`, string symbols inside the FILE-NAME), `cd`, and *uses* of PATHs at the instruction arguments the manual
-documents: destinations (file / dir / copy DESTINATION, creating and modifying forms) and reading arguments (copy
-SOURCE, -contents-of, dir-contents-of, -existing-file|dir|path, the executable of a PROGRAM, the executable of
-[act], cd, exists, contents, dir-contents), in setup / before-assert / assert / cleanup (and [act]).
+`@[SYM]@`, string symbols inside the FILE-NAME, a path symbol routed through a string symbol), `cd`, and *uses* of
+PATHs at the instruction arguments the manual documents: destinations (file / dir / copy DESTINATION, creating and
+modifying forms) and reading arguments (copy SOURCE, -contents-of, dir-contents-of, -existing-file|dir|path, the
+executable of a PROGRAM, stdin / -stdin, the executable of [act], cd, exists, contents, dir-contents), in setup /
+before-assert / assert / cleanup (and [act]).
 
 Observation: the case runs with --keep.  Every root directory (home, act-home, act, tmp, result, every directory
 the case may `cd` to, the directory of the case file and of an included file, a directory outside everything) holds
@@ -14,8 +15,10 @@ the outside area are compared with the tree the reference model (vlib/ref/c12_pa
 (`@[P]@` inside a file, a shell line, a probe argument, `% echo -existing-path P`) are compared as strings.
 
 Oracle (from the manual, see vlib/ref/c12_paths.py): (A) path = documented root + suffix, -rel-cd at time of use;
-(B) an option the argument does not accept => SYNTAX_ERROR, a symbol whose relativity the argument does not accept
-(however long the chain) => VALIDATION_ERROR, nothing executed; (C) home area byte-identical after every case.
+(B) destination arguments: an option the argument does not list => SYNTAX_ERROR, a symbol whose relativity it does
+not list (however long the chain) => VALIDATION_ERROR, nothing executed; reading arguments: a listed relativity is
+accepted and resolved, an unlisted one is either rejected before execution or resolved correctly; (C) home area and
+the area outside byte-identical after every case (also after rejected ones).
 """
 import os
 
@@ -28,29 +31,47 @@ from vlib.runner import Sub, Verdict, fail
 
 PROPERTY_ID = 'C12'
 LEVEL = 'exploration'
-RULE = ('cases = [conf] home/act-home redirection x up to 16 instructions (def path with every relativity incl. '
-        '-rel-here in an included file of a sub directory, chains through -rel SYM / @[SYM]@/x / @[SYM]@, string '
-        'symbols and ./ // x/../ decorations in the FILE-NAME, three quoting styles, cd, uses at 13 argument kinds '
-        'in 4 phases + [act]), valid by construction against a reference model; one case in three ends with one '
-        'irregular use (unaccepted option, symbol chain of depth 1-3 with an unaccepted relativity, absolute '
-        'FILE-NAME + RELATIVITY, absolute destination, leading path symbol + RELATIVITY, -rel-here outside def); '
-        'plus the enumerated matrix destination form x phase x (option | chain over every base relativity x link '
-        'kinds up to depth 2 (quick) / 4 (thorough)). Non-trivial = a use whose value comes through >= 1 symbol or '
-        'a non-default relativity; distinct = distinct case')
+RULE = ('cases = [conf] home/act-home redirection (also from an included file) x instructions: def path with every '
+        'relativity incl. -rel-here in (nested) included files, chains through -rel SYM / @[SYM]@/x / @[SYM]@ / a '
+        'string symbol over a path symbol, the builtin path symbols, string symbols (also defined via other string '
+        'symbols) and ./ // x/../ decorations in the FILE-NAME, three quoting styles, cd, uses at 7 destination forms '
+        '(file = / empty / +=, dir / = / +=, copy DESTINATION incl. RELATIVITY only and none) and 13 reading arguments '
+        '(copy SOURCE, cd, -contents-of, dir-contents-of, -existing-file|dir|path, program path, stdin, -stdin of a '
+        'program, exists, contents, dir-contents, [act] executable and argument; also inside text-source / program / '
+        'files-source symbols) in setup / before-assert / assert / cleanup (+ [act]). Enumerated: dest_matrix and '
+        'read_matrix = argument x phase x (default | every option | chain over every base relativity x every '
+        'combination of link kinds up to depth 3 (quick, deep chains thinned) / 4 (thorough) x 4 ways of using the last '
+        'symbol, suffix shapes rotating); cd_matrix = argument x phase x (-rel-cd / default-cd symbol, alone or as base '
+        'of a chain) defined before 1-2 cd then used. Random (paths): up to 16 instructions valid by construction '
+        'against the reference model, one case in three ends with one irregular use (unaccepted option, symbol chain '
+        'of depth 1-4 with an unaccepted relativity, absolute FILE-NAME + RELATIVITY, absolute destination, leading '
+        'path symbol + RELATIVITY, -rel-here outside def, path symbol through a string symbol). Non-trivial = a use '
+        'whose value comes through >= 1 symbol or a non-default relativity; distinct = distinct case')
 ASSUMPTIONS = [
     'the "Accepted relativities" tables were transcribed by hand from the help pages; sub-check manual_agrees '
     'compares the transcription with the help text of the tree under test',
+    'a READING argument given a relativity (option, -rel-here, or symbol) that its help page does not list: the '
+    'property restricts only arguments that designate a file or directory to create or modify, so rejection before '
+    'execution and acceptance with the correct resolution are both accepted (a listed relativity must be accepted; '
+    'destination arguments stay strict)',
     'FILES-SOURCE `dir-contents-of PATH` has no relativity table in the manual and TEXT-SOURCE `-contents-of` lists '
     'no -rel-result although the phase decides: for these cells acceptance with correct resolution and rejection '
     'are both accepted',
+    'a FILE-NAME that contains a string symbol whose value refers to a path symbol: a destination must reject it '
+    '(the path symbol is "routed through" a definition); for a reading argument the manual is silent - resolution as '
+    'written and rejection are both accepted',
     'invalid usage "absolute FILE-NAME together with a RELATIVITY": accepted outcomes are a rejection before '
     'execution (SYNTAX_ERROR / VALIDATION_ERROR) or the literal reading root + FILE-NAME (below the root; a missing '
     'file there gives VALIDATION_ERROR / HARD_ERROR); escaping the root is the defect KF-C12-1',
     'an absolute FILE-NAME without RELATIVITY given to a destination argument is expected to be rejected like a '
     'path symbol with an absolute value (property text; "Exactly prevents modification of the contents of these '
     'directories" in `help concept "home directory structure"`): acceptance is reported as KF-C12-2',
+    '`stdin = -contents-of PATH`: the manual does not say whether the file is read when the instruction is executed '
+    'or when [act] starts (the implementation does the latter); the instruction is generated as the last one of '
+    '[setup] so that both readings agree',
     'rendered paths are compared after dropping "." and empty components (".." is kept)',
-    'file modes and time stamps are not compared; `cd` goes to sandbox directories only',
+    'file modes and time stamps are not compared; `cd` goes to sandbox directories only (except as the last '
+    'instruction of an enumerated case)',
 ]
 
 IDENT_EXIT = {'PASS': 0, 'SYNTAX_ERROR': 65, 'VALIDATION_ERROR': 65, 'HARD_ERROR': 128, 'FAIL': 32,
@@ -111,8 +132,16 @@ def render(case, info):
     act = case['act']
     if act['k'] == 'plain':
         ph_lines['act'].append('$ true')
+    elif act['k'] == 'cat':
+        ph_lines['act'].append('$ cat')
     elif act['k'] == 'exe':
         ph_lines['act'].append(render_expr(act['expr']))
+    elif act['k'] == 'file':
+        ph_lines['conf'].append('actor = file % sh')
+        ph_lines['act'].append(render_expr(act['expr']))
+    elif act['k'] == 'interp':
+        ph_lines['conf'].append('actor = file ' + render_expr(act['expr']))
+        ph_lines['act'].append('x1')
     else:
         ph_lines['act'].append('% echo -existing-path ' + render_expr(act['expr']))
     for i, op in enumerate(case['ops']):
@@ -175,6 +204,11 @@ def render(case, info):
             site, e = op['site'], render_expr(op['expr'])
             if site == 'contents_of':
                 L.append('file -rel-tmp o/%d = -contents-of %s' % (i, e))
+            elif site == 'stdin':
+                L.append('stdin = -contents-of %s' % e)
+            elif site == 'pgm_stdin':
+                L.append('file -rel-tmp o/%d = -stdout-from %% cat' % i)
+                L.append('    -stdin -contents-of %s' % e)
             elif site == 'dir_contents_of':
                 L.append('dir -rel-tmp o/%d = dir-contents-of %s' % (i, e))
             elif site == 'existing':
@@ -249,7 +283,7 @@ def write_fixture(ws):
             os.makedirs(os.path.dirname(p), exist_ok=True)
             with open(p, 'w', encoding='utf-8', newline='') as f:
                 f.write(e[1])
-            if rel.endswith('x1'):
+            if ref.is_exe(rel):
                 os.chmod(p, 0o755)
 
 
@@ -636,7 +670,8 @@ SUBS = [
     Sub('manual_agrees', check_manual, enumerate=enum_manual, exhaustive=True),
     Sub('dest_matrix', check, enumerate=gen.dest_matrix, exhaustive=True, render=render_for_evidence),
     Sub('read_matrix', check, enumerate=gen.read_matrix, exhaustive=True, render=render_for_evidence),
-    Sub('paths', check, strategy=lambda tier: gen.cases(tier), budget={'quick': 4000, 'thorough': 80000},
+    Sub('cd_matrix', check, enumerate=gen.cd_matrix, exhaustive=True, render=render_for_evidence),
+    Sub('paths', check, strategy=lambda tier: gen.cases(tier), budget={'quick': 3000, 'thorough': 80000},
         render=render_for_evidence),
     Sub('subprocess_differential', check_subprocess, enumerate=enum_subprocess, exhaustive=False,
         render=render_for_evidence),
